@@ -62,7 +62,9 @@ structure MState where
   uuidsEver : List Nat := []
   poseSent : List ((Nat × Nat) × List Nat) := []          -- (connection, entity) ↦ origin timestamps of the pose updates received from it
   poseSeen : List ((Nat × Nat × Nat) × Nat) := []         -- (observer, sender, entity) ↦ how far into that list the observer has been relayed
-  parked : List ((Nat × Nat) × Option Nat) := []          -- (connection, origin timestamp) of an update waiting for its frame ↦ uuid of the session it was sent in
+  parked : List ((Nat × Nat) × Nat) := []                 -- (connection, origin timestamp) of an update waiting for its frame ↦ join requests the connection had sent before it
+  joinsSent : List (Nat × Nat) := []                      -- connection ↦ join requests received from it
+  joinsDone : List (Nat × Nat) := []                      -- connection ↦ join requests of it handled
 deriving Inhabited
 
 def flat (s : String) : String := s.replace "\n" " "
@@ -229,6 +231,15 @@ def MState.onRequest (m : MState) (c : Nat) (r : Req) (ds : List Delivery) (outc
           | _ => m.bad "C16" "no-odal-state" "successful join without odal state"
         else m
       let m := (m.put s')
+      -- a measurement that was still running when its participant moved on is lost with the participant record: its
+      -- request is never answered (recorded finding F37b); one given up for a new measurement must be answered
+      let m := match m.lats.find? (·.1 == c) with
+        | some (_, l) =>
+          if !l.done && !(own.any fun o => o == Out.error l.rid ecConflict) then
+            let d := s!"connection {c} switched sessions while its signed latency request {l.rid} was still being measured: that request is never answered"
+            (m.bad "C04" "measurement-lost-on-switch" d).bad "C18" "measurement-lost-on-switch" d
+          else m
+        | none => m
       let m := { m with lats := m.lats.filter (·.1 != c) }
       m.checkOthers c ds (expLeave ++ s'.relay pid (.joinBcast ots pid)) ["C02", "C06"] "join-relay"
     | none =>
@@ -397,6 +408,13 @@ def MState.onRequest (m : MState) (c : Nat) (r : Req) (ds : List Delivery) (outc
     let m := m.checkOthers c ds [] ["C03"] "unexpected-relay"
     let pings := own.filterMap fun o => match o with | .pingReq id => some id | _ => none
     if 3 ≤ iter && iter ≤ 50 && wallet != "" then
+      -- a measurement given up for this one is answered (CONFLICT), exactly when one was still running
+      let running := match m.lats.find? (·.1 == c) with | some (_, l) => if l.done then none else some l.rid | none => none
+      let told := own.filterMap fun o => match o with | .error r code => if code == ecConflict then some r else none | _ => none
+      let m := match running with
+        | some old => if told == [old] then m else
+            (m.bad "C04" "abandoned-measurement-unanswered" (flat s!"request {old} was given up for {rid}; answers {reprStr own}")).bad "C18" "abandoned-measurement-unanswered" (flat s!"request {old} was given up for {rid}; answers {reprStr own}")
+        | none => if told.isEmpty then m else m.bad "C18" "conflict-without-measurement" (flat s!"{reprStr own}")
       match pings with
       | [id] => { m with lats := (m.lats.filter (·.1 != c)) ++ [(c, { rid, n := iter, wallet, uuid := s.uuid, issued := [id] })] }
       | _ => m.bad "C18" "measurement-not-started" (flat s!"valid request {reprStr r} answered {reprStr own}")
@@ -515,25 +533,27 @@ def MState.step (m : MState) (st : IStep) : MState :=
       | none => m
     | _ => m
   let m := m.registry st
-  -- C03 / C11: an update that waits for its frame is handled in the session it was sent in (or in none): not in the one
-  -- the connection joined in the meantime, where the same ids name other things
-  let held : Option (Nat × Nat) := match st.ev with
-    | .recv c (.updatePose ots _ (some _)) | .recv c (.compUpdate ots ..) => some (c, ots)
-    | _ => none
-  let m := match held with
-    | some key => { m with parked := ((m.parked.filter fun q => q.1 != key) ++ [(key, (m0.whereIs key.1).map fun x => x.1.uuid)]) }
-    | none => m
+  -- C03 / C11: an update that waits for its frame is handled between the same two join requests of its connection as it
+  -- was sent: not after a later join, in a session where the same ids name other things (nor before an earlier one)
+  let cnt (l : List (Nat × Nat)) (c : Nat) : Nat := ((l.find? fun q => q.1 == c).map Prod.snd).getD 0
+  let bump (l : List (Nat × Nat)) (c : Nat) : List (Nat × Nat) := (l.filter fun q => q.1 != c) ++ [(c, cnt l c + 1)]
   let m := match st.ev with
+    | .recv c (.join ..) => { m with joinsSent := bump m.joinsSent c }
+    | .recv c (.updatePose ots _ (some _)) | .recv c (.compUpdate ots ..) =>
+      { m with parked := (m.parked.filter fun q => q.1 != (c, ots)) ++ [((c, ots), cnt m.joinsSent c)] }
+    | .handle c (some (.join ..)) _ => { m with joinsDone := bump m.joinsDone c }
     | .handle c (some (.updatePose ots ..)) _ | .handle c (some (.compUpdate ots ..)) _ =>
       match m.parked.find? fun q => q.1 == (c, ots) with
       | some (_, was) =>
-        let now_ := (m0.whereIs c).map fun x => x.1.uuid
+        let now_ := cnt m.joinsDone c
         let m := { m with parked := m.parked.filter fun q => q.1 != (c, ots) }
         if was != now_ then
-          let d := s!"connection {c} sent update {ots} in session {was} (uuid); it is handled in session {now_}"
+          let d := s!"connection {c} sent update {ots} after {was} join requests; it is handled after {now_} of them"
           (m.bad "C03" "update-carried-into-another-session" d).bad "C11" "update-carried-into-another-session" d
         else m
       | none => m
+    | .connect c | .disconnect c =>
+      { m with joinsSent := m.joinsSent.filter (·.1 != c), joinsDone := m.joinsDone.filter (·.1 != c), parked := m.parked.filter (·.1.1 != c) }
     | _ => m
   -- C04: every message the server sends carries its time (the receive function the clients are built on refuses one
   -- that does not): an answer without it never reaches the requester
